@@ -4,7 +4,8 @@
    Mem/StringsRefine.v.  [exec] is the model's step (Mem/Exec.v): purge the keys whose deadline
    has passed, then dispatch on the lower-cased command name. *)
 Require Import Base.Bytes Base.GoInt Base.Reply Mem.Types Mem.Inv Mem.Strings Mem.Lists Mem.Exec.
-Require Import Mem.StringsSpec Mem.StringsProofs Mem.StringsRefine.
+Require Import Mem.StringsSpec Mem.StringsProofs Mem.StringsRefine Mem.StringsAll.
+Require Import Glob.GlobSpec.
 Local Open Scope Z_scope.
 
 (* Every step, from every well-formed database (any keys, of any of the six types, with or
@@ -38,13 +39,32 @@ Theorem C01_run_chained : forall prog d, chained d (run d prog).
 Proof. intros prog d. apply run_chained. Qed.
 Print Assumptions C01_run_chained.
 
-(* Programs that also use the commands of other families (lists, and the families still to be
-   added to [families]): the same conclusion, given that each family preserves [db_wf]
-   (<family>_dispatch_wf_pres; the strings family's own obligation is [C01_wf_preserved]). *)
+(* Programs that also use the commands of other families: the same conclusion, given that each
+   family preserves [db_wf] (<family>_dispatch_wf_pres; the strings family's own obligation is
+   [C01_wf_preserved]).  Kept as the reusable conditional form; instantiated just below. *)
 Theorem C01_refines_any_family : Forall family_wf_pres families ->
   forall prog d, db_wf d -> Forall step_conforms (run d prog).
 Proof. exact refines_families. Qed.
 Print Assumptions C01_refines_any_family.
+
+(* ... and every family does: the closed statement.  Programs that interleave the C01 commands
+   with ANY other commands of ANY family (lists, hashes, sets, sorted sets, streams, EXPIRE...):
+   the C01 steps satisfy their clauses, and every database of the run -- also after a foreign
+   step -- is well-formed, which is all the C01 clauses need. *)
+Theorem C01_refines_all_commands : forall prog d, db_wf d ->
+  Forall step_conforms (run d prog) /\ Forall step_wf (run d prog).
+Proof. exact refines_all_commands. Qed.
+Print Assumptions C01_refines_all_commands.
+
+Theorem C01_refines_trace_all_commands : forall prog d now0, db_wf d -> clocks_from now0 prog ->
+  accepts (view d now0) now0 (trace d prog).
+Proof. exact refines_trace_all. Qed.
+Print Assumptions C01_refines_trace_all_commands.
+
+Theorem C01_exec_keeps_wf : forall d now nowms args hint r d',
+  db_wf d -> exec d now nowms args hint = (r, d') -> db_wf d'.
+Proof. exact exec_wf. Qed.
+Print Assumptions C01_exec_keeps_wf.
 
 (* the invariant: it holds initially, the strings family keeps it, its replies are well framed *)
 Theorem C01_wf_empty : db_wf empty_db.
@@ -140,6 +160,73 @@ Theorem C01_incr_missing : forall d now nowms args hint k delta r d',
 Proof. exact incr_missing. Qed.
 Print Assumptions C01_incr_missing.
 
+(* strconv.ParseInt(s,10,64) = Some z  exactly when  s is sign? digit+, z is the base-ten value
+   of the digits with that sign ([sign_digits]: Horner, defined in the specification), z in int64 *)
+Theorem C01_atoi64_value : forall s z,
+  atoi64 s = Some z <-> (sign_digits s = Some z /\ in_int64 z = true).
+Proof. exact atoi64_value. Qed.
+Print Assumptions C01_atoi64_value.
+
+(* The generic key commands on keys holding a value of ANY of the six types ("prior keyspace
+   contents including keys of other types"). *)
+Theorem C01_type_names : forall b l s h z x,
+  ref_type_name (VStr b) = B "string" /\ ref_type_name (VList l) = B "list" /\
+  ref_type_name (VSet s) = B "set" /\ ref_type_name (VHash h) = B "hash" /\
+  ref_type_name (VZSet z) = B "zset" /\ ref_type_name (VStream x) = B "stream".
+Proof. exact type_names. Qed.
+Print Assumptions C01_type_names.
+
+Theorem C01_type_any_value : forall d now nowms c k hint r d',
+  db_wf d -> lower c = B "type" -> exec d now nowms [c; k] hint = (r, d') ->
+  r = RSimple (match view d now k with Some (v, _) => ref_type_name v | None => B "none" end) /\
+  forall k', view d' now k' = view d now k'.
+Proof. exact type_any_value. Qed.
+Print Assumptions C01_type_any_value.
+
+Theorem C01_rename_any_value : forall d now nowms c old new hint v t r d',
+  db_wf d -> lower c = B "rename" -> view d now old = Some (v, t) ->
+  exec d now nowms [c; old; new] hint = (r, d') ->
+  r = rOK /\ view d' now new = Some (v, t) /\ (old <> new -> view d' now old = None) /\
+  forall k, k <> old -> k <> new -> view d' now k = view d now k.
+Proof. exact rename_any_value. Qed.
+Print Assumptions C01_rename_any_value.
+
+Theorem C01_rename_missing : forall d now nowms c old new hint r d',
+  db_wf d -> lower c = B "rename" -> view d now old = None ->
+  exec d now nowms [c; old; new] hint = (r, d') ->
+  is_error r /\ forall k, view d' now k = view d now k.
+Proof. exact rename_missing. Qed.
+Print Assumptions C01_rename_missing.
+
+Theorem C01_del_any_value : forall d now nowms c keys hint r d',
+  db_wf d -> lower c = B "del" -> keys <> [] -> exec d now nowms (c :: keys) hint = (r, d') ->
+  r = RInt (zlength (filter (fun k => match view d now k with Some _ => true | None => false end)
+                            (nodup bytes_eq_dec keys))) /\
+  forall k, view d' now k = if mentions keys k then None else view d now k.
+Proof. exact del_any_value. Qed.
+Print Assumptions C01_del_any_value.
+
+Theorem C01_exists_any_value : forall d now nowms c keys hint r d',
+  db_wf d -> lower c = B "exists" -> keys <> [] -> exec d now nowms (c :: keys) hint = (r, d') ->
+  r = RInt (zlength (filter (fun k => match view d now k with Some _ => true | None => false end) keys)) /\
+  forall k, view d' now k = view d now k.
+Proof. exact exists_any_value. Qed.
+Print Assumptions C01_exists_any_value.
+
+Theorem C01_keys_any_value : forall d now nowms c p hint r d',
+  db_wf d -> lower c = B "keys" -> exec d now nowms [c; p] hint = (r, d') ->
+  (exists ks, r = RArr (map RBulk ks) /\ NoDup ks /\
+              forall k, In k ks <-> (view d now k <> None /\ glob_matches p k)) /\
+  forall k, view d' now k = view d now k.
+Proof. exact keys_any_value. Qed.
+Print Assumptions C01_keys_any_value.
+
+(* what INCRBYFLOAT stores and replies reads back as the same decimal (sign, digits, scale) *)
+Theorem C01_incrbyfloat_format_roundtrip : forall m e,
+  parse_dec (fmt_dec m e) = Some (m <? 0, Z.to_N (Z.abs m), e).
+Proof. exact parse_dec_fmt_dec. Qed.
+Print Assumptions C01_incrbyfloat_format_roundtrip.
+
 (* INCRBYFLOAT inside the exactly modelled decimal domain: the sum is exact (over Z, scaled) *)
 Theorem C01_incrbyfloat_sum_exact : forall m1 e1 m2 e2,
   let '(m, e) := dec_add m1 e1 m2 e2 in
@@ -189,6 +276,32 @@ Example ex_program :
       rOK; err_other; RInt 9223372036854775800;
       rOK; RInt 2; RBulk (B "11"); RNil;
       RInt 2; RBulk (B "10.5"); RBulk (B "10.25") ].
+Proof. vm_compute. reflexivity. Qed.
+
+(* the generic key commands over keys of all six types of [ex_db]: TYPE of each, EXISTS counting
+   them, KEYS listing them, RENAME moving a list with its deadline and a sorted set onto a hash,
+   RENAME onto itself, MGET answering nil for non-strings, DEL counting distinct live keys, SET
+   overwriting a key of another type *)
+Example ex_program_all_types :
+  replies (run ex_db
+    [ st 1000 [B "type"; B "s"]; st 1000 [B "type"; B "l"]; st 1000 [B "type"; B "t"]; st 1000 [B "type"; B "h"];
+      st 1000 [B "type"; B "z"]; st 1000 [B "type"; B "x"]; st 1000 [B "type"; B "nokey"];
+      st 1000 [B "exists"; B "s"; B "l"; B "t"; B "h"; B "z"; B "x"; B "nokey"];
+      st 1000 [B "keys"; B "*"];
+      st 1000 [B "rename"; B "l"; B "l2"]; st 1000 [B "type"; B "l2"]; st 1000 [B "ttl"; B "l2"]; st 1000 [B "exists"; B "l"];
+      st 1000 [B "rename"; B "z"; B "h"]; st 1000 [B "type"; B "h"]; st 1000 [B "rename"; B "x"; B "x"]; st 1000 [B "type"; B "x"];
+      st 1000 [B "mget"; B "s"; B "t"; B "h"];
+      st 1000 [B "del"; B "t"; B "x"; B "nokey"; B "t"]; st 1000 [B "keys"; B "*"];
+      st 1000 [B "set"; B "h"; B "now a string"]; st 1000 [B "type"; B "h"] ])
+  = [ RSimple (B "string"); RSimple (B "list"); RSimple (B "set"); RSimple (B "hash");
+      RSimple (B "zset"); RSimple (B "stream"); RSimple (B "none");
+      RInt 6;
+      RArr [RBulk (B "s"); RBulk (B "l"); RBulk (B "t"); RBulk (B "h"); RBulk (B "z"); RBulk (B "x")];
+      rOK; RSimple (B "list"); RInt 1999999000; RInt 0;
+      rOK; RSimple (B "zset"); rOK; RSimple (B "stream");
+      RArr [RBulk (B "10"); RNil; RNil];
+      RInt 2; RArr [RBulk (B "s"); RBulk (B "l2"); RBulk (B "h")];
+      rOK; RSimple (B "string") ].
 Proof. vm_compute. reflexivity. Qed.
 
 (* the hypotheses of the corollaries are satisfiable on that database *)
